@@ -13,28 +13,29 @@ import (
 // Case is a self-contained description of one differential case; runCase is a pure function of it,
 // so a replay file is just the JSON of the Case.
 type Case struct {
-	Kind    string    `json:"kind"`
-	Doc     string    `json:"doc_hex,omitempty"`
-	DocText string    `json:"doc_text,omitempty"` // informational
-	Tree    string    `json:"tree,omitempty"`     // (hexname child…)
-	Fmt     Fmt4      `json:"fmt"`
-	Mode    string    `json:"mode,omitempty"`
-	Format  string    `json:"format,omitempty"`
-	Exts    []string  `json:"exts,omitempty"`
-	Fail    bool      `json:"reader_fails,omitempty"`
-	WFail   int       `json:"writer_fail_at"` // -1: never
-	Short   int       `json:"short,omitempty"`
-	FailAt  int       `json:"callback_fail_at"` // -1: never
-	Break   int       `json:"break_after"`      // -1: never
-	Target  string    `json:"target,omitempty"` // relative to the jail
-	Strict  bool      `json:"strict,omitempty"`
-	Dry     bool      `json:"dry,omitempty"`
-	Pre     []FSEntry `json:"pre,omitempty"`
-	FromRoot bool     `json:"from_root,omitempty"`
-	Alias   bool      `json:"alias,omitempty"` // use the deprecated alias
-	Note    string    `json:"note,omitempty"`
-	ErrOnly bool      `json:"compare_error_only,omitempty"` // invalid UTF-8 names: encoders substitute U+FFFD (library behaviour)
-	Texts   []string  `json:"item_texts,omitempty"` // item text of every non-blank row (for the no-silent-loss check)
+	Kind     string    `json:"kind"`
+	Doc      string    `json:"doc_hex,omitempty"`
+	DocText  string    `json:"doc_text,omitempty"` // informational
+	Tree     string    `json:"tree,omitempty"`     // (hexname child…)
+	Fmt      Fmt4      `json:"fmt"`
+	Mode     string    `json:"mode,omitempty"`
+	Format   string    `json:"format,omitempty"`
+	Exts     []string  `json:"exts,omitempty"`
+	Fail     bool      `json:"reader_fails,omitempty"`
+	WFail    int       `json:"writer_fail_at"` // -1: never
+	Short    int       `json:"short,omitempty"`
+	FailAt   int       `json:"callback_fail_at"` // -1: never
+	Break    int       `json:"break_after"`      // -1: never
+	Target   string    `json:"target,omitempty"` // relative to the jail
+	Strict   bool      `json:"strict,omitempty"`
+	Dry      bool      `json:"dry,omitempty"`
+	Pre      []FSEntry `json:"pre,omitempty"`
+	FromRoot bool      `json:"from_root,omitempty"`
+	Alias    bool      `json:"alias,omitempty"` // use the deprecated alias
+	Massive  bool      `json:"massive,omitempty"`
+	Note     string    `json:"note,omitempty"`
+	ErrOnly  bool      `json:"compare_error_only,omitempty"` // invalid UTF-8 names: encoders substitute U+FFFD (library behaviour)
+	Texts    []string  `json:"item_texts,omitempty"`         // item text of every non-blank row (for the no-silent-loss check)
 }
 
 func newCase(kind string) Case {
@@ -178,14 +179,20 @@ func runCaseR(m *Model, c Case) ([]Diff, string) {
 			return nil
 		}
 		var err error
+		root := buildRoot(t)
 		if c.Alias {
-			err = gtree.WalkProgrammably(buildRoot(t), cb, fmtOpts(c.Fmt)...)
+			err = gtree.WalkProgrammably(root, cb, fmtOpts(c.Fmt)...)
 		} else {
-			err = gtree.WalkFromRoot(buildRoot(t), cb, fmtOpts(c.Fmt)...)
+			err = gtree.WalkFromRoot(root, cb, fmtOpts(c.Fmt)...)
 		}
 		realv := "v=" + showVisits(vs) + " e=" + classify(err)
 		modelv := m.Ask("rootwalk " + c.Fmt.enc() + " " + optN(c.FailAt) + " " + addMirror(t).Enc())
-		return cmp("walk-root", realv, modelv), realv
+		d := cmp("walk-root", realv, modelv)
+		// walking the same root again visits the same rendered tree (node facts are rebuilt, not appended to)
+		vs, k = nil, 0
+		err2 := gtree.WalkFromRoot(root, cb, fmtOpts(c.Fmt)...)
+		d = append(d, cmp("walk-root (second walk of the same root)", "v="+showVisits(vs)+" e="+classify(err2), modelv)...)
+		return d, realv
 	case "rootiter":
 		t := parseTreeEnc(c.Tree)
 		var vs []string
